@@ -28,6 +28,30 @@ func init() {
 
 func vWireOp(t []string) string {
 	switch vStr(t, 1) {
+	case "nobody":
+		// wire nobody type=<union tag> run=<hex>: a message whose union tag announces a body that is not there (long enough to pass
+		// the size check); whatever comes back must be a reply the agent accepts: body tag = APP_REPLY
+		ty, _ := strconv.Atoi(vKVor(t, "type", "0"))
+		buf := flatbuffers.NewBuilder(0)
+		var run flatbuffers.UOffsetT
+		if r, ok := vKV(t, "run"); ok && r != "-" {
+			run = buf.CreateString(string(vUnhex(r)))
+		}
+		protocol.MessageStart(buf)
+		if run != 0 {
+			protocol.MessageAddAgentRunId(buf, run)
+		}
+		protocol.MessageAddDataType(buf, protocol.MessageBody(ty))
+		buf.Finish(protocol.MessageEnd(buf))
+		rep, err := processBinary(buf.Bytes[buf.Head():], &vKeySpy{})
+		if rep == nil {
+			if err != nil {
+				return "reply=none err=1"
+			}
+			return "reply=none err=0"
+		}
+		m := protocol.GetRootAsMessage(rep, 0)
+		return fmt.Sprintf("reply=tag:%d", m.DataType())
 	case "txnmetrics":
 		// wire txnmetrics max=<n> name=<txn> m=<metrics>: the message as the agent builds it, its metrics decoded by the real
 		// aggregateMetrics into a table of capacity n
